@@ -192,6 +192,7 @@ fn run_one(sc: &Scenario, strategy: Strategy) -> (Result<(), String>, vsh::VOut)
 }
 
 pub fn run(ctx: &Ctx) {
+    crate::checks::c14r::run(ctx);
     let quick = ctx.quick();
     let sizes = sizes(quick);
     let per_size = if quick { 60 } else { 400 };
